@@ -120,8 +120,9 @@ func (interp *Interpreter) CompileAST(n ast.Node) (*Program, error) {
 	}
 	interp.mutex.Unlock()
 
-	// Add main to list of functions to run, after all inits.
-	if m := gs.sym[mainID]; pkgName == mainID && m != nil {
+	// Add main to list of functions to run, after all inits, if it is defined
+	// by this program (not by a previously evaluated one).
+	if m := gs.sym[mainID]; pkgName == mainID && m != nil && m.node != nil && m.node.anc == root {
 		initNodes = append(initNodes, m.node)
 	}
 
